@@ -17,6 +17,11 @@ def build_cases(ctx, vh, model, nsets=40, real_frac=0.25, volume_damage=False):
     rs = P.PSet({"rowswap.bin": L.gen_content(rng, "random", 4 * 140)}, 4, 259, g=2, tag="rowswap")
     rs.rowswap = True
     sets.append(rs)
+    # protected files whose names look like one another's temporary or backup copies: restoring one must not touch the others
+    tl = P.PSet({n_: L.gen_content(rng, "random", rng.choice([5, 9, 13])) for n_ in ("x.dat", "x.dat.tmp", "x.dat.1", "x.dat~", "x.dat.bak", "x.dat.swp")},
+                4, 6, g=1, tag="temporary-like names")
+    tl.force_real = True
+    sets.append(tl)
     if thorough:
         sets.append(P.PSet({"huge.bin": L.gen_content(rng, "random", 4 * 3000)}, 4, 9, g=5, tag="3000 slices"))
     for ps in sets:
@@ -70,7 +75,7 @@ def build_cases(ctx, vh, model, nsets=40, real_frac=0.25, volume_damage=False):
             vdesc, fs2 = P.drop_volumes(rng, ps, fs) if rng.random() < 0.6 else ("allvols", fs)
             dbl = rng.random() < 0.5
             g = rng.choice([1, 3])
-            mode = "real" if rng.random() < real_frac else "mem"
+            mode = "real" if (rng.random() < real_frac or (getattr(ps, "force_real", False) and real_frac > 0)) else "mem"
             if volume_damage and ps.volumes and rng.random() < 0.35:
                 fs2 = dict(fs2)
                 v = rng.choice(ps.volumes)
